@@ -93,6 +93,12 @@ Theorem C20_usvg_write_defaults :
 Proof. exact usvg_write_defaults. Qed.
 Print Assumptions C20_usvg_write_defaults.
 
+Theorem C20_resources_dir_rule : forall explicit file_input,
+  resvg_resources_dir explicit file_input = (if explicit then ResExplicit else if file_input then ResInputDir else ResNone) /\
+  usvg_resources_dir explicit file_input = resvg_resources_dir explicit file_input.
+Proof. exact resources_dir_rule. Qed.
+Print Assumptions C20_resources_dir_rule.
+
 (* --- the transform handed to the renderer maps the document box onto the target ----------------------- *)
 Theorem C20_fit_transform_matches_size : forall f s v, 0 < is_w s -> 0 < is_h s -> fit_to_size f s = Some v ->
   let t := fit_to_transform f s in
